@@ -1807,7 +1807,7 @@ def setitem_array(out_name, array, indices, value):
     non_broadcast_dimensions = []
 
     for i, (a, b, j) in enumerate(
-        zip(array_common_shape, value_common_shape, implied_shape_positions)
+        zip(array_common_shape, value_common_shape, implied_shape_positions[offset:])
     ):
         index = indices[j]
         if is_dask_collection(index) and index.dtype == bool and b != 1:
